@@ -87,6 +87,12 @@ struct Run {
     oracle: Vec<Value>,
     feat: BTreeMap<String, u64>,
     twin_ok: bool,
+    files: HashMap<usize, (String, String)>, // provision op index -> (uri of the store, uri of its twin)
+    paths: Vec<String>,
+    clobbered: bool,   // the harness itself overwrote LAST_ERROR (polling after a close without callback)
+    last_seen_err: i64, // code of the most recent error reported since the slot was last read
+    tag: String,
+    twin_keys: HashMap<usize, aries_askar::kms::LocalKey>,
 }
 
 /// sqlx connections must be dropped inside the runtime
@@ -224,11 +230,25 @@ pub fn exec(case: &Value, _tag: &str) -> Value {
     let mut guard = SERIAL.lock().unwrap_or_else(|e| e.into_inner());
     let mut last = *guard;
     let mut run = Run { slots: vec![], stores: HashMap::new(), sess: HashMap::new(), scans: HashMap::new(), issued: [vec![], vec![], vec![]],
-                        cbs: vec![], oracle: vec![], feat: BTreeMap::new(), twin_ok: true };
+                        cbs: vec![], oracle: vec![], feat: BTreeMap::new(), twin_ok: true, files: HashMap::new(), paths: vec![], clobbered: false, last_seen_err: 0, tag: _tag.to_string(), twin_keys: HashMap::new() };
     let ops = case["ops"].as_array().cloned().unwrap_or_default();
     let mut outs = vec![];
+    current_error(); // the last-error slot is process-global: start every case with an empty one
     for (i, op) in ops.iter().enumerate() {
         let o = step(&mut run, i, op, &mut last);
+        {
+            // what LAST_ERROR should hold now (mirrors the rules stated in Driver/C19.lean trackLastErr)
+            let name = op["op"].as_str().unwrap_or("");
+            let r = o.get("r").and_then(|r| r.as_str()).unwrap_or("");
+            let cbe = o.get("cb").and_then(|c| c.get("err")).and_then(|e| e.as_str()).unwrap_or("");
+            let num = |n: &str| -> i64 { match n { "Backend" => 1, "Busy" => 2, "Duplicate" => 3, "Encryption" => 4, "Input" => 5, "NotFound" => 6, "Unexpected" => 7, "Unsupported" => 8, "Custom" => 100, _ => 0 } };
+            if name == "current_error" { run.clobbered = false; run.last_seen_err = 0; }
+            else if r == "Unexpected" || cbe == "Unexpected" { run.clobbered = false; run.last_seen_err = 0; }
+            else if (name == "store_close" && !op["cb"].as_bool().unwrap_or(false)) || name == "key_roundtrip" { run.clobbered = true; }
+            else if name == "null_probe" { run.clobbered = false; run.last_seen_err = 5; }
+            else if !cbe.is_empty() { run.clobbered = false; run.last_seen_err = num(cbe); }
+            else if !r.is_empty() && r != "Success" { run.clobbered = false; run.last_seen_err = num(r); }
+        }
         run.feat(&format!("op:{}", op["op"].as_str().unwrap_or("")));
         if let Some(r) = o.get("r").and_then(|r| r.as_str()) { if r != "Success" { run.feat(&format!("ret:{}", r)); } }
         if let Some(e) = o.get("cb").and_then(|c| c.get("err")).and_then(|e| e.as_str()) { run.feat(&format!("cberr:{}", e)); }
@@ -263,6 +283,7 @@ pub fn exec(case: &Value, _tag: &str) -> Value {
             run.fail(i, &ops[i], format!("callback:{}-times-expected-{}:{}", n, expect, opn), json!({}));
         }
     }
+    for p in run.paths.iter() { for suffix in ["", "-wal", "-shm", "-journal"] { std::fs::remove_file(format!("{}{}", p, suffix)).ok(); } }
     *guard = last;
     drop(guard);
     json!({"out": outs, "oracle": run.oracle, "feat": run.feat})
@@ -291,7 +312,15 @@ fn step(run: &mut Run, i: usize, op: &Value, last: &mut [usize; 3]) -> Value {
     run.set_slot(i, Slot::None);
     match name.as_str() {
         "provision" => {
-            let (uri, method, profile, key) = (cstr_arg(&op["uri"]), cstr_arg(&op["method"]), cstr_arg(&op["profile"]), cstr_arg(&json!(RAW_KEY)));
+            // uri "FILE" = a fresh database file (and a second one for the twin)
+            let pass = op["pass"].as_str().unwrap_or(RAW_KEY).to_string();
+            let (uri_s, twin_s) = if op["uri"].as_str() == Some("FILE") {
+                let base = format!("{}/c19-{}-{}", crate::store_case::scratch_dir(), run.tag, i);
+                let (a, b) = (format!("{}.db", base), format!("{}-twin.db", base));
+                for p in [&a, &b] { for suffix in ["", "-wal", "-shm", "-journal"] { std::fs::remove_file(format!("{}{}", p, suffix)).ok(); } run.paths.push(p.clone()); }
+                (json!(format!("sqlite://{}", a)), format!("sqlite://{}", b))
+            } else { (op["uri"].clone(), op["uri"].as_str().unwrap_or("").to_string()) };
+            let (uri, method, profile, key) = (cstr_arg(&uri_s), cstr_arg(&op["method"]), cstr_arg(&op["profile"]), cstr_arg(&json!(pass)));
             let ret = unsafe { askar_store_provision(uri.ptr, method.ptr, key.ptr, profile.ptr, 1, if cb_given { Some(cb_handle) } else { None }, id) };
             let malformed = op["uri"].is_null() || op["method"].as_str() != Some("raw") || !cb_given;
             let (ret, cb) = run.finish(i, op, ret, id, cb_given);
@@ -300,8 +329,9 @@ fn step(run: &mut Run, i: usize, op: &Value, last: &mut [usize; 3]) -> Value {
             match cb {
                 Some(CbVal::Handle(0, h)) => {
                     let ord = run.issued(i, op, 0, h, last);
-                    let twin = block_on(Store::provision(op["uri"].as_str().unwrap_or(""), StoreKeyMethod::RawKey, PassKey::from(RAW_KEY), opt_string(&op["profile"]), true)).ok();
+                    let twin = block_on(Store::provision(&twin_s, StoreKeyMethod::RawKey, PassKey::from(pass.as_str()), opt_string(&op["profile"]), true)).ok();
                     run.stores.insert(h, TStore { twin, open: true });
+                    run.files.insert(i, (uri_s.as_str().unwrap_or("").to_string(), twin_s));
                     run.set_slot(i, Slot::Handle(h));
                     jret(ret, json!({"h": ord}))
                 }
@@ -643,7 +673,16 @@ fn step(run: &mut Run, i: usize, op: &Value, last: &mut [usize; 3]) -> Value {
             let known = ["ed25519", "x25519", "a128gcm", "a256gcm", "c20p", "xc20p", "p256", "k256"].contains(&op["alg"].as_str().unwrap_or(""));
             if (null_out || !known) && ret == 0 { run.fail(i, op, "key_generate:invalid-argument->Success".into(), json!({})); }
             if !null_out && known && ret != 0 { run.fail(i, op, format!("key_generate:valid->ret:{}", code_name(ret)), json!({})); }
-            if ret == 0 && !k.0.is_null() { run.set_slot(i, Slot::Key(k.0 as usize)); }
+            if ret == 0 && !k.0.is_null() {
+                run.set_slot(i, Slot::Key(k.0 as usize));
+                // the same key for the twin, through the Rust API
+                let mut sb = SecretBuf { len: 0, data: std::ptr::null_mut() };
+                if unsafe { askar_key_get_secret_bytes(k, &mut sb) } == 0 {
+                    use std::str::FromStr;
+                    let bytes = take_buf(sb);
+                    if let Ok(t) = aries_askar::kms::KeyAlg::from_str(op["alg"].as_str().unwrap_or("")).map_err(aries_askar::Error::from).and_then(|a| aries_askar::kms::LocalKey::from_secret_bytes(a, &bytes)) { run.twin_keys.insert(k.0 as usize, t); }
+                }
+            }
             jsync(ret, Value::Null)
         }
         "key_get_algorithm" => {
@@ -664,6 +703,298 @@ fn step(run: &mut Run, i: usize, op: &Value, last: &mut [usize; 3]) -> Value {
             if ret == 0 { run.fail(i, op, "insert_key:null-key-handle->ret:Success".into(), json!({})); }
             jret(ret, cb.map_or(Value::Null, |v| if v.code() == 0 { json!("ok") } else { cberr(v.code()) }))
         }
+        "rekey" => {
+            let h = run.handle_arg(op, last[0]);
+            let live = live_store(run, h);
+            let (method, pass) = (cstr_arg(&op["method"]), cstr_arg(&op["pass"]));
+            let ret = unsafe { askar_store_rekey(H(h), method.ptr, pass.ptr, if cb_given { Some(cb_unit) } else { None }, id) };
+            let parsed = match op["method"].as_str() { Some(m) => StoreKeyMethod::parse_uri(m).ok(), None => Some(StoreKeyMethod::default()) };
+            let malformed = !cb_given || parsed.is_none() || is_bad_utf8(&op["method"]) || is_bad_utf8(&op["pass"]);
+            let (ret, cb) = run.finish(i, op, ret, id, cb_given);
+            if malformed && ret == 0 { run.fail(i, op, format!("rekey:malformed-{}->ret:Success", if is_bad_utf8(&op["method"]) || is_bad_utf8(&op["pass"]) { "arg-not-utf8" } else { "args" }), json!({})); if live { run.twin_ok = false; } }
+            if !malformed && ret != 0 { run.fail(i, op, format!("rekey:valid-args->ret:{}", code_name(ret)), json!({})); }
+            let mut twin_res = None;
+            if live && ret == 0 && !malformed && run.twin_ok {
+                if let (Some(t), Some(m)) = (run.stores.get_mut(&h).and_then(|s| s.twin.as_mut()), parsed) {
+                    let pk = match op["pass"].as_str() { Some(p) => PassKey::from(p.to_string()), None => PassKey::empty() };
+                    twin_res = Some(block_on(t.rekey(m, pk)));
+                }
+            }
+            match cb {
+                Some(v) => {
+                    if !live && v.code() == 0 { run.fail(i, op, "rekey:bad-handle->Success".into(), json!({"h": h})); }
+                    match &twin_res {
+                        Some(Ok(())) if v.code() != 0 => { run.fail(i, op, format!("rekey:rust:ok->ffi:err:{}", code_name(v.code())), json!({})); run.twin_ok = false; }
+                        Some(Err(e)) if kind_name(e) != code_name(v.code()) => {
+                            let ctx = if op["pass"].is_null() { ":null-pass-key" } else { "" };
+                            run.fail(i, op, format!("rekey:rust:err:{}->ffi:{}{}", kind_name(e), code_name(v.code()), ctx), json!({"method": op["method"]}));
+                            if v.code() == 0 { run.twin_ok = false; }
+                        }
+                        _ => {}
+                    }
+                    if live {
+                        // whatever the outcome of the re-key, the handle must still denote the store
+                        let pid = new_cb_id();
+                        let usable = unsafe { askar_store_get_profile_name(H(h), Some(cb_str), pid) } == 0 && matches!(wait_cb(pid, WAIT), Some(x) if x.code() == 0);
+                        take_count(pid);
+                        if !usable {
+                            run.fail(i, op, format!("rekey:store-handle-invalid-after-{}-rekey", if v.code() == 0 { "successful" } else { "failed" }), json!({"code": code_name(v.code())}));
+                            current_error();
+                        }
+                    }
+                    jret(ret, if v.code() == 0 { json!("ok") } else { cberr(v.code()) })
+                }
+                None => jret(ret, Value::Null),
+            }
+        }
+        "store_open" => {
+            let of = op["of"].as_u64().unwrap_or(0) as usize;
+            let (uri_s, twin_s) = run.files.get(&of).cloned().unwrap_or(("sqlite:///nonexistent/c19.db".into(), "sqlite:///nonexistent/c19.db".into()));
+            let uri_v = if op["uri"].is_null() { Value::Null } else { json!(uri_s) };
+            let (uri, method, pass) = (cstr_arg(&uri_v), cstr_arg(&op["method"]), cstr_arg(&op["pass"]));
+            let ret = unsafe { askar_store_open(uri.ptr, method.ptr, pass.ptr, std::ptr::null(), if cb_given { Some(cb_handle) } else { None }, id) };
+            let parsed: Option<Option<StoreKeyMethod>> = match op["method"].as_str() { Some(m) => StoreKeyMethod::parse_uri(m).ok().map(Some), None => Some(None) };
+            let malformed = !cb_given || op["uri"].is_null() || parsed.is_none();
+            let (ret, cb) = run.finish(i, op, ret, id, cb_given);
+            if malformed && ret == 0 { run.fail(i, op, "store_open:malformed-args->ret:Success".into(), json!({})); }
+            if !malformed && ret != 0 { run.fail(i, op, format!("store_open:valid-args->ret:{}", code_name(ret)), json!({})); }
+            let twin_res = if ret == 0 && !malformed && run.twin_ok {
+                let pk = match op["pass"].as_str() { Some(p) => PassKey::from(p.to_string()), None => PassKey::empty() };
+                Some(block_on(async { match Store::open(&twin_s, parsed.clone().unwrap(), pk, None).await { Ok(s) => { s.close().await.ok(); Ok(()) } Err(e) => Err(e) } }))
+            } else { None };
+            match cb {
+                Some(CbVal::Handle(0, nh)) => {
+                    let ord = run.issued(i, op, 0, nh, last);
+                    if let Some(Err(e)) = &twin_res { run.fail(i, op, format!("store_open:rust:err:{}->ffi:ok", kind_name(e)), json!({})); }
+                    let cid = new_cb_id();
+                    if unsafe { askar_store_close(H(nh), Some(cb_unit), cid) } == 0 { wait_cb(cid, WAIT); }
+                    take_count(cid);
+                    jret(ret, json!({"opened": ord}))
+                }
+                Some(v) => {
+                    match &twin_res {
+                        Some(Ok(())) => run.fail(i, op, format!("store_open:rust:ok->ffi:err:{}", code_name(v.code())), json!({})),
+                        Some(Err(e)) if kind_name(e) != code_name(v.code()) => run.fail(i, op, format!("store_open:rust:err:{}->ffi:{}", kind_name(e), code_name(v.code())), json!({})),
+                        _ => {}
+                    }
+                    jret(ret, cberr(v.code()))
+                }
+                None => jret(ret, Value::Null),
+            }
+        }
+        "remove_profile" | "set_default_profile" | "get_default_profile" => {
+            let h = run.handle_arg(op, last[0]);
+            let live = live_store(run, h);
+            let pname = cstr_arg(&op["name"]);
+            let ret = unsafe { match name.as_str() {
+                "remove_profile" => askar_store_remove_profile(H(h), pname.ptr, if cb_given { Some(cb_i8) } else { None }, id),
+                "set_default_profile" => askar_store_set_default_profile(H(h), pname.ptr, if cb_given { Some(cb_unit) } else { None }, id),
+                _ => askar_store_get_default_profile(H(h), if cb_given { Some(cb_str) } else { None }, id),
+            } };
+            let malformed = !cb_given || (name != "get_default_profile" && op["name"].is_null());
+            let (ret, cb) = run.finish(i, op, ret, id, cb_given);
+            if malformed && ret == 0 { run.fail(i, op, format!("{}:malformed-args->ret:Success", name), json!({})); }
+            if !malformed && ret != 0 { run.fail(i, op, format!("{}:valid-args->ret:{}", name, code_name(ret)), json!({})); }
+            let twin_res: Option<Result<Value, aries_askar::Error>> = if live && ret == 0 && !malformed && run.twin_ok {
+                run.stores.get(&h).and_then(|s| s.twin.as_ref()).map(|st| block_on(async { match name.as_str() {
+                    "remove_profile" => st.remove_profile(op["name"].as_str().unwrap_or("").to_string()).await.map(|r| json!({"removed": r})),
+                    "set_default_profile" => st.set_default_profile(op["name"].as_str().unwrap_or("").to_string()).await.map(|_| json!("ok")),
+                    _ => st.get_default_profile().await.map(|n| json!({"name": n})),
+                } }))
+            } else { None };
+            match cb {
+                Some(v) => {
+                    let got = if v.code() != 0 { cberr(v.code()) } else { match &v { CbVal::I64(_, n) => json!({"removed": *n != 0}), CbVal::Str(_, s) => json!({"name": s}), _ => json!("ok") } };
+                    if !live && v.code() == 0 { run.fail(i, op, format!("{}:bad-handle->Success", name), json!({"h": h})); }
+                    match &twin_res {
+                        Some(Ok(w)) if *w != got => run.fail(i, op, format!("{}:rust-vs-ffi:differs", name), json!({"rust": w, "ffi": got})),
+                        Some(Err(e)) if kind_name(e) != code_name(v.code()) => run.fail(i, op, format!("{}:rust:err:{}->ffi:{}", name, kind_name(e), code_name(v.code())), json!({})),
+                        _ => {}
+                    }
+                    jret(ret, got)
+                }
+                None => jret(ret, Value::Null),
+            }
+        }
+        "version" => {
+            let v = take_str(unsafe { askar_version() } as *const c_char);
+            let ok = v.as_ref().map_or(false, |s| s.split('.').count() >= 3 && s.chars().next().map_or(false, |c| c.is_ascii_digit()));
+            if !ok { run.fail(i, op, "version:not-a-version-string".into(), json!({"got": v})); }
+            jsync(0, json!("version"))
+        }
+        "current_error" => {
+            let text = current_error();
+            let parsed: Value = serde_json::from_str(&text).unwrap_or(Value::Null);
+            let code = parsed["code"].as_i64();
+            if code.is_none() { run.fail(i, op, "current_error:not-json-with-code".into(), json!({"text": text})); }
+            if !run.clobbered && code != Some(run.last_seen_err) {
+                run.fail(i, op, format!("current_error:last-reported-{}->slot-{}", code_name(run.last_seen_err), code_name(code.unwrap_or(-1))), json!({"text": text}));
+            }
+            if code.unwrap_or(0) != 0 && !parsed["message"].is_string() { run.fail(i, op, "current_error:no-message".into(), json!({"text": text})); }
+            if run.clobbered { json!({"code": "any"}) } else { json!({"code": code}) }
+        }
+        "set_max_log_level" => {
+            let l = op["level"].as_i64().unwrap_or(0) as i32;
+            let ret = unsafe { askar_set_max_log_level(l) };
+            run.check_panic(i, op, ret);
+            if !(-1..=5).contains(&l) && ret == 0 { run.fail(i, op, "set_max_log_level:invalid-level->Success".into(), json!({"level": l})); }
+            if (-1..=5).contains(&l) && ret != 0 { run.fail(i, op, format!("set_max_log_level:valid->ret:{}", code_name(ret)), json!({"level": l})); }
+            unsafe { askar_set_max_log_level(0) };
+            jsync(ret, Value::Null)
+        }
+        "strlist_count" => {
+            let null_out = op["null_out"].as_bool().unwrap_or(false);
+            let ptr = match run.slot_arg(op) { Slot::StrList(p) => *p, _ => 0 };
+            let mut count: i32 = -77;
+            let ret = unsafe { askar_string_list_count(P(ptr as *const u8), if null_out { std::ptr::null_mut() } else { &mut count }) };
+            run.check_panic(i, op, ret);
+            if (ptr == 0 || null_out) && ret == 0 { run.fail(i, op, "strlist_count:null-argument->Success".into(), json!({})); }
+            if ptr != 0 && !null_out && ret != 0 { run.fail(i, op, format!("strlist_count:valid->ret:{}", code_name(ret)), json!({})); }
+            jsync(ret, if ret == 0 { json!(count) } else { Value::Null })
+        }
+        "key_insert" | "key_update" | "key_remove" => {
+            let h = run.handle_arg(op, last[1]);
+            let live = live_sess(run, h);
+            let kptr = match op["key"].as_u64().and_then(|s| run.slots.get(s as usize)) { Some(Slot::Key(p)) => *p, _ => 0 };
+            let (n, md, tt) = (cstr_arg(&op["n"]), cstr_arg(&op["md"]), cstr_arg(&op["tt"]));
+            let cbf: CbUnit = if cb_given { Some(cb_unit) } else { None };
+            let ret = unsafe { match name.as_str() {
+                "key_insert" => askar_session_insert_key(H(h), P(kptr as *const u8), n.ptr, md.ptr, tt.ptr, -1, cbf, id),
+                "key_update" => askar_session_update_key(H(h), n.ptr, md.ptr, tt.ptr, -1, cbf, id),
+                _ => askar_session_remove_key(H(h), n.ptr, cbf, id),
+            } };
+            let tags_malformed = name != "key_remove" && op["ts"].as_str() == Some("malformed");
+            let malformed = !cb_given || op["n"].is_null() || tags_malformed || (name == "key_insert" && kptr == 0);
+            let tags: Option<Vec<EntryTag>> = op["ts"].as_array().map(|a| a.iter().map(|t| {
+                let (p, nm, v) = (t[0].as_i64().unwrap_or(0) != 0, t[1].as_str().unwrap_or("").to_string(), t[2].as_str().unwrap_or("").to_string());
+                if p { EntryTag::Plaintext(nm, v) } else { EntryTag::Encrypted(nm, v) }
+            }).collect());
+            let (ret, cb) = run.finish(i, op, ret, id, cb_given);
+            if malformed && ret == 0 { run.fail(i, op, format!("{}:malformed-args->ret:Success", name), json!({})); if live { run.twin_ok = false; } }
+            if !malformed && ret != 0 { run.fail(i, op, format!("{}:valid-args->ret:{}", name, code_name(ret)), json!({"tags": op["tt"]})); }
+            let mut twin_res = None;
+            if live && ret == 0 && !malformed && run.twin_ok {
+                let tk = run.twin_keys.remove(&kptr);
+                if let Some(t) = run.sess.get_mut(&h).and_then(|s| s.twin.as_mut()) {
+                    let nm = op["n"].as_str().unwrap_or("");
+                    let mdo = opt_string(&op["md"]);
+                    twin_res = match name.as_str() {
+                        "key_insert" => tk.as_ref().map(|k| block_on(t.insert_key(nm, k, mdo.as_deref(), None, tags.as_deref(), None))),
+                        "key_update" => Some(block_on(t.update_key(nm, mdo.as_deref(), tags.as_deref(), None))),
+                        _ => Some(block_on(t.remove_key(nm))),
+                    };
+                }
+                if let Some(k) = tk { run.twin_keys.insert(kptr, k); }
+            }
+            match cb {
+                Some(v) => {
+                    if !live && v.code() == 0 { run.fail(i, op, format!("{}:bad-handle->Success", name), json!({"h": h})); }
+                    match &twin_res {
+                        Some(Ok(())) if v.code() != 0 => run.fail(i, op, format!("{}:rust:ok->ffi:err:{}", name, code_name(v.code())), json!({})),
+                        Some(Err(e)) if kind_name(e) != code_name(v.code()) => run.fail(i, op, format!("{}:rust:err:{}->ffi:{}", name, kind_name(e), code_name(v.code())), json!({})),
+                        _ => {}
+                    }
+                    jret(ret, if v.code() == 0 { json!("ok") } else { cberr(v.code()) })
+                }
+                None => jret(ret, Value::Null),
+            }
+        }
+        "key_fetch" | "key_fetch_all" => {
+            let h = run.handle_arg(op, last[1]);
+            let live = live_sess(run, h);
+            let (n, alg) = (cstr_arg(&op["n"]), cstr_arg(&op["alg"]));
+            let cbf: CbPtr = if cb_given { Some(cb_ptr) } else { None };
+            let single = name == "key_fetch";
+            let lim = op["lim"].as_i64().unwrap_or(-1);
+            let ret = unsafe { if single { askar_session_fetch_key(H(h), n.ptr, 0, cbf, id) } else { askar_session_fetch_all_keys(H(h), alg.ptr, std::ptr::null(), std::ptr::null(), lim, 0, cbf, id) } };
+            let malformed = !cb_given || (single && op["n"].is_null());
+            let (ret, cb) = run.finish(i, op, ret, id, cb_given);
+            if malformed && ret == 0 { run.fail(i, op, format!("{}:malformed-args->ret:Success", name), json!({})); }
+            if !malformed && ret != 0 { run.fail(i, op, format!("{}:valid-args->ret:{}", name, code_name(ret)), json!({})); }
+            // twin rows: (name, alg, metadata, tags, secret bytes of the loaded key)
+            type KRow = (String, Option<String>, Option<String>, Vec<(bool, String, String)>, Option<Vec<u8>>);
+            let krow = |e: &aries_askar::kms::KeyEntry| -> KRow {
+                let mut tags: Vec<(bool, String, String)> = e.tags_as_slice().iter().map(|t| match t { EntryTag::Encrypted(n, v) => (false, n.clone(), v.clone()), EntryTag::Plaintext(n, v) => (true, n.clone(), v.clone()) }).collect();
+                tags.sort();
+                (e.name().to_string(), e.algorithm().map(|s| s.to_string()), e.metadata().map(|s| s.to_string()), tags, e.load_local_key().ok().and_then(|k| k.to_secret_bytes().ok()).map(|b| b.to_vec()))
+            };
+            let mut twin_res: Option<Result<Option<Vec<KRow>>, aries_askar::Error>> = None;
+            if live && ret == 0 && !malformed && run.twin_ok {
+                if let Some(t) = run.sess.get_mut(&h).and_then(|s| s.twin.as_mut()) {
+                    twin_res = Some(if single { block_on(t.fetch_key(op["n"].as_str().unwrap_or(""), false)).map(|o| o.map(|e| vec![krow(&e)])) }
+                        else { block_on(t.fetch_all_keys(op["alg"].as_str(), None, None, if lim < 0 { None } else { Some(lim) }, false)).map(|v| Some(v.iter().map(krow).collect())) });
+                }
+            }
+            match cb {
+                Some(CbVal::Ptr(code, p)) => {
+                    if !live && code == 0 { run.fail(i, op, format!("{}:bad-handle->Success", name), json!({"h": h})); }
+                    if code != 0 {
+                        match &twin_res {
+                            Some(Ok(_)) => run.fail(i, op, format!("{}:rust:ok->ffi:err:{}", name, code_name(code)), json!({})),
+                            Some(Err(e)) if kind_name(e) != code_name(code) => run.fail(i, op, format!("{}:rust:err:{}->ffi:{}", name, kind_name(e), code_name(code)), json!({})),
+                            _ => {}
+                        }
+                        return jret(ret, cberr(code));
+                    }
+                    if p == 0 {
+                        if let Some(Ok(Some(_))) = &twin_res { run.fail(i, op, format!("{}:rust:data->ffi:none", name), json!({})); }
+                        return jret(ret, json!({"keys": null}));
+                    }
+                    let lp = P(p as *const u8);
+                    let mut count: i32 = -1;
+                    unsafe { askar_key_entry_list_count(lp, &mut count) };
+                    let nrows = if single { 1 } else { count.max(0) };
+                    let mut rows: Vec<KRow> = vec![];
+                    let mut jrows = vec![];
+                    for idx in 0..nrows {
+                        let (mut a, mut b, mut c, mut d): (*const c_char, *const c_char, *const c_char, *const c_char) = (std::ptr::null(), std::ptr::null(), std::ptr::null(), std::ptr::null());
+                        let mut kp = P(std::ptr::null());
+                        unsafe {
+                            askar_key_entry_list_get_name(lp, idx, &mut a); askar_key_entry_list_get_algorithm(lp, idx, &mut b);
+                            askar_key_entry_list_get_metadata(lp, idx, &mut c); askar_key_entry_list_get_tags(lp, idx, &mut d);
+                            askar_key_entry_list_load_local(lp, idx, &mut kp);
+                        }
+                        let (nm, al, mdv, tg) = (take_str(a).unwrap_or_default(), take_str(b), take_str(c), take_str(d));
+                        let mut secret = None;
+                        if !kp.0.is_null() { let mut sb = SecretBuf { len: 0, data: std::ptr::null_mut() }; if unsafe { askar_key_get_secret_bytes(kp, &mut sb) } == 0 { secret = Some(take_buf(sb)); } unsafe { askar_key_free(kp) }; }
+                        let tags = match &tg { None => Some(vec![]), Some(t) => read_tag_obj(t).and_then(|m| members_to_tags(&m)).map(|mut v| { v.sort(); v }) };
+                        if tags.is_none() { run.fail(i, op, format!("{}:tags-json-unparsable", name), json!({"text": tg})); }
+                        jrows.push(json!({"n": nm, "alg": al, "md": mdv, "t": canon_tags_text(&tg)}));
+                        rows.push((nm, al, mdv, tags.unwrap_or_default(), secret));
+                    }
+                    // bad indices on a real key list
+                    for bad_idx in [-1i32, nrows, i32::MAX, i32::MIN] {
+                        let mut a: *const c_char = std::ptr::null();
+                        let c = unsafe { askar_key_entry_list_get_name(lp, bad_idx, &mut a) };
+                        if c == 0 { take_str(a); if !(single && bad_idx == 0) { run.fail(i, op, format!("{}:key-list:index-out-of-range->Success", name), json!({"idx": bad_idx, "rows": nrows})); } }
+                    }
+                    let c = unsafe { askar_key_entry_list_get_name(lp, 0, std::ptr::null_mut()) };
+                    if c == 0 { run.fail(i, op, format!("{}:key-list:null-out->Success", name), json!({})); }
+                    unsafe { askar_key_entry_list_free(lp) };
+                    let known = single || lim < 0;
+                    match &twin_res {
+                        Some(Ok(Some(t))) => {
+                            let (mut x, mut y) = (rows.clone(), t.clone());
+                            x.sort(); y.sort();
+                            if x.len() != y.len() { run.fail(i, op, format!("{}:rust-vs-ffi:rows-differ", name), json!({"rust": y.len(), "ffi": x.len()})); }
+                            else if known && x != y {
+                                let what = x.iter().zip(y.iter()).find(|(a, b)| a != b).map(|(a, b)| if a.0 != b.0 { "name" } else if a.1 != b.1 { "algorithm" } else if a.2 != b.2 { "metadata" } else if a.3 != b.3 { "tags" } else { "key" }).unwrap_or("");
+                                run.fail(i, op, format!("{}:rust-vs-ffi:{}-differ", name, what), json!({}));
+                            }
+                        }
+                        Some(Ok(None)) => run.fail(i, op, format!("{}:rust:none->ffi:data", name), json!({})),
+                        Some(Err(e)) => run.fail(i, op, format!("{}:rust:err:{}->ffi:data", name, kind_name(e)), json!({})),
+                        None => {}
+                    }
+                    jrows.sort_by(|a, b| a["n"].as_str().unwrap_or("").as_bytes().cmp(b["n"].as_str().unwrap_or("").as_bytes()));
+                    jret(ret, if known { json!({"keys": {"count": count, "rows": jrows}}) } else { json!({"keys": {"count": count}}) })
+                }
+                Some(v) => jret(ret, cberr(v.code())),
+                None => jret(ret, Value::Null),
+            }
+        }
+        "null_probe" => null_probe(run, i, op),
+        "key_roundtrip" => key_roundtrip(run, i, op),
         "raw_key_null_out" => {
             // a NULL out-pointer must give an error code; run the call in a child process so that a
             // crash is observed instead of suffered
@@ -684,6 +1015,119 @@ fn step(run: &mut Run, i: usize, op: &Value, last: &mut [usize; 3]) -> Value {
         }
         _ => json!({"err": "BadOp"}),
     }
+}
+
+/// every synchronous key / key-list accessor with a NULL handle, and (with a real key) a NULL out-pointer
+fn null_probe(run: &mut Run, i: usize, op: &Value) -> Value {
+    let null = P(std::ptr::null());
+    let empty = ByteBuf { len: 0, data: std::ptr::null() };
+    let mut key = P(std::ptr::null());
+    let alg = cstr_arg(&json!("ed25519"));
+    unsafe { askar_key_generate(alg.ptr, std::ptr::null(), 1, &mut key) };
+    let (mut sb, mut s, mut b8, mut n32, mut kp) = (SecretBuf { len: 0, data: std::ptr::null_mut() }, std::ptr::null::<c_char>(), 0i8, 0i32, P(std::ptr::null()));
+    let nh: Vec<(&str, Code)> = unsafe { vec![
+        ("key_get_algorithm", askar_key_get_algorithm(null, &mut s)),
+        ("key_get_ephemeral", askar_key_get_ephemeral(null, &mut b8)),
+        ("key_get_public_bytes", askar_key_get_public_bytes(null, &mut sb)),
+        ("key_get_secret_bytes", askar_key_get_secret_bytes(null, &mut sb)),
+        ("key_get_jwk_secret", askar_key_get_jwk_secret(null, &mut sb)),
+        ("key_get_jwk_public", askar_key_get_jwk_public(null, std::ptr::null(), &mut s)),
+        ("key_get_jwk_thumbprint", askar_key_get_jwk_thumbprint(null, std::ptr::null(), &mut s)),
+        ("key_aead_random_nonce", askar_key_aead_random_nonce(null, &mut sb)),
+        ("key_sign_message", askar_key_sign_message(null, empty, std::ptr::null(), &mut sb)),
+        ("key_verify_signature", askar_key_verify_signature(null, empty, empty, std::ptr::null(), &mut b8)),
+        ("key_entry_list_count", askar_key_entry_list_count(null, &mut n32)),
+        ("key_entry_list_get_name", askar_key_entry_list_get_name(null, 0, &mut s)),
+        ("key_entry_list_get_algorithm", askar_key_entry_list_get_algorithm(null, 0, &mut s)),
+        ("key_entry_list_get_metadata", askar_key_entry_list_get_metadata(null, 0, &mut s)),
+        ("key_entry_list_get_tags", askar_key_entry_list_get_tags(null, 0, &mut s)),
+        ("key_entry_list_load_local", askar_key_entry_list_load_local(null, 0, &mut kp)),
+        ("string_list_count", askar_string_list_count(null, &mut n32)),
+        ("string_list_get_item", askar_string_list_get_item(null, 0, &mut s)),
+        ("entry_list_count", askar_entry_list_count(null, &mut n32)),
+    ] };
+    let no: Vec<(&str, Code)> = unsafe { vec![
+        ("key_get_algorithm", askar_key_get_algorithm(key, std::ptr::null_mut())),
+        ("key_get_ephemeral", askar_key_get_ephemeral(key, std::ptr::null_mut())),
+        ("key_get_public_bytes", askar_key_get_public_bytes(key, std::ptr::null_mut())),
+        ("key_get_secret_bytes", askar_key_get_secret_bytes(key, std::ptr::null_mut())),
+        ("key_get_jwk_secret", askar_key_get_jwk_secret(key, std::ptr::null_mut())),
+        ("key_get_jwk_public", askar_key_get_jwk_public(key, std::ptr::null(), std::ptr::null_mut())),
+        ("key_get_jwk_thumbprint", askar_key_get_jwk_thumbprint(key, std::ptr::null(), std::ptr::null_mut())),
+        ("key_aead_random_nonce", askar_key_aead_random_nonce(key, std::ptr::null_mut())),
+        ("key_sign_message", askar_key_sign_message(key, empty, std::ptr::null(), std::ptr::null_mut())),
+        ("key_verify_signature", askar_key_verify_signature(key, empty, empty, std::ptr::null(), std::ptr::null_mut())),
+        ("key_crypto_box_random_nonce", askar_key_crypto_box_random_nonce(std::ptr::null_mut())),
+        ("key_get_supported_backends", askar_key_get_supported_backends(std::ptr::null_mut())),
+        ("key_generate", askar_key_generate(alg.ptr, std::ptr::null(), 1, std::ptr::null_mut())),
+        ("key_from_seed", askar_key_from_seed(alg.ptr, empty, std::ptr::null(), std::ptr::null_mut())),
+    ] };
+    unsafe { askar_key_free(key) };
+    let mut class = |which: &str, v: &[(&str, Code)]| -> Value {
+        let mut names: Vec<String> = v.iter().map(|(_, c)| code_name(*c)).collect();
+        for (f, c) in v { if *c == 0 { run.fail(i, op, format!("null_probe:{}:{}->Success", which, f), json!({})); } if *c == 7 { run.check_panic(i, op, *c); } }
+        names.sort(); names.dedup();
+        if names.len() == 1 { json!(names[0]) } else { json!(v.iter().map(|(f, c)| format!("{}={}", f, code_name(*c))).collect::<Vec<_>>()) }
+    };
+    let a = class("null-handle", &nh);
+    let b = class("null-out", &no);
+    json!({"null_handle": a, "null_out": b})
+}
+
+/// a key made from a seed through the C API and through the Rust API must be the same key
+fn key_roundtrip(run: &mut Run, i: usize, op: &Value) -> Value {
+    use aries_askar::kms::{KeyAlg, LocalKey};
+    use std::str::FromStr;
+    let alg_s = op["alg"].as_str().unwrap_or("ed25519");
+    let seed = hex::decode(op["seed"].as_str().unwrap_or("")).unwrap_or_default();
+    let alg = cstr_arg(&json!(alg_s));
+    let mut key = P(std::ptr::null());
+    let ret = unsafe { askar_key_from_seed(alg.ptr, ByteBuf { len: seed.len() as i64, data: seed.as_ptr() }, std::ptr::null(), &mut key) };
+    run.check_panic(i, op, ret);
+    let twin = KeyAlg::from_str(alg_s).map_err(aries_askar::Error::from).and_then(|a| LocalKey::from_seed(a, &seed, None));
+    match (&twin, ret) {
+        (Ok(_), 0) => {}
+        (Err(e), c) if c != 0 => { if kind_name(e) != code_name(c) { run.fail(i, op, format!("key_from_seed:rust:err:{}->ffi:{}", kind_name(e), code_name(c)), json!({})); } return jsync(ret, Value::Null); }
+        (Ok(_), c) => { run.fail(i, op, format!("key_from_seed:rust:ok->ffi:{}", code_name(c)), json!({})); return jsync(ret, Value::Null); }
+        (Err(e), _) => { run.fail(i, op, format!("key_from_seed:rust:err:{}->ffi:ok", kind_name(e)), json!({})); unsafe { askar_key_free(key) }; return jsync(ret, Value::Null); }
+    }
+    let t = twin.unwrap();
+    let mut sb = SecretBuf { len: 0, data: std::ptr::null_mut() };
+    let mut s: *const c_char = std::ptr::null();
+    let mut diffs = vec![];
+    unsafe {
+        let c = askar_key_get_public_bytes(key, &mut sb);
+        match (t.to_public_bytes(), c) { (Ok(w), 0) => if w.as_ref() != take_buf(sb).as_slice() { diffs.push("public_bytes") }, (Err(_), c) if c != 0 => {}, _ => diffs.push("public_bytes:status") }
+        let mut sb2 = SecretBuf { len: 0, data: std::ptr::null_mut() };
+        let c = askar_key_get_secret_bytes(key, &mut sb2);
+        match (t.to_secret_bytes(), c) { (Ok(w), 0) => if w.as_ref() != take_buf(sb2).as_slice() { diffs.push("secret_bytes") }, (Err(_), c) if c != 0 => {}, _ => diffs.push("secret_bytes:status") }
+        let c = askar_key_get_jwk_public(key, std::ptr::null(), &mut s);
+        match (t.to_jwk_public(None), c) { (Ok(w), 0) => if Some(w) != take_str(s) { diffs.push("jwk_public") }, (Err(_), c) if c != 0 => {}, _ => diffs.push("jwk_public:status") }
+        let mut s2: *const c_char = std::ptr::null();
+        let c = askar_key_get_jwk_thumbprint(key, std::ptr::null(), &mut s2);
+        match (t.to_jwk_thumbprint(None), c) { (Ok(w), 0) => if Some(w) != take_str(s2) { diffs.push("jwk_thumbprint") }, (Err(_), c) if c != 0 => {}, _ => diffs.push("jwk_thumbprint:status") }
+        let mut s3: *const c_char = std::ptr::null();
+        let c = askar_key_get_algorithm(key, &mut s3);
+        if c != 0 || take_str(s3).as_deref() != Some(t.algorithm().as_str()) { diffs.push("algorithm") }
+        // a signature made through the C API verifies under the Rust key, and the other way round
+        let msg = b"c19 message \x00 with nul";
+        let mut sig = SecretBuf { len: 0, data: std::ptr::null_mut() };
+        let c = askar_key_sign_message(key, ByteBuf { len: msg.len() as i64, data: msg.as_ptr() }, std::ptr::null(), &mut sig);
+        match (t.sign_message(msg, None), c) {
+            (Ok(w), 0) => {
+                let fs = take_buf(sig);
+                if !t.verify_signature(msg, &fs, None).unwrap_or(false) { diffs.push("sign:ffi-signature-rejected-by-rust") }
+                let mut okb: i8 = 0;
+                let c2 = askar_key_verify_signature(key, ByteBuf { len: msg.len() as i64, data: msg.as_ptr() }, ByteBuf { len: w.len() as i64, data: w.as_ptr() }, std::ptr::null(), &mut okb);
+                if c2 != 0 || okb == 0 { diffs.push("verify:rust-signature-rejected-by-ffi") }
+            }
+            (Err(_), c) if c != 0 => {}
+            _ => diffs.push("sign:status"),
+        }
+        askar_key_free(key);
+    }
+    for d in diffs { run.fail(i, op, format!("key_roundtrip:{}:rust-vs-ffi:{}", alg_s, d), json!({})); }
+    jsync(ret, Value::Null)
 }
 
 static SCAN_ORDER: Lazy<Mutex<HashMap<usize, bool>>> = Lazy::new(|| Mutex::new(HashMap::new()));
